@@ -223,6 +223,22 @@ func Set(r *rand.Rand, pf Profile, try func(pattern string) bool) []string {
 			}
 		}
 	}
+	if pf.Wild > 0 && r.IntN(12) == 0 {
+		// a node key that holds two infix catch-alls and has children, then routes strictly below one of the children
+		// (registered last: the node is copied as an ancestor, not rebuilt)
+		base := []string{"/w", "", "a.com/w"}[r.IntN(3)]
+		k := strings.Count(base[strings.IndexByte(base, '/')+1:], "/") + 1
+		if base == "" {
+			k = 0
+		}
+		n1, n2 := string(rune('0'+k%10)), string(rune('0'+(k+2)%10))
+		stem := base + "/*{c" + n1 + "}/b/*{c" + n2 + "}/c/"
+		for _, q := range []string{stem + "one", stem + "two", stem + "one/more", stem + "two/{p" + string(rune('0'+(k+5)%10)) + "}", stem + "one/more/x"} {
+			if try(q) {
+				acc = append(acc, q)
+			}
+		}
+	}
 	if pf.FanOut {
 		// more than 50 children under one node: distinct first bytes
 		base := "/f/"
